@@ -477,7 +477,7 @@ def run_check(pid, tier, seed):
         # a disagreement on a concurrent history is only kept when it persists with every grace period stretched
         keep = []
         for mm in corr['mismatches']:
-            if not mm.get('input') or 'model' not in mm:
+            if not mm.get('input') or 'model' not in mm or mm.get('entry') in prop.spec_entries:
                 keep.append(mm)
                 continue
             tmp = os.path.join(run_dir, 'confirm.in')
